@@ -769,6 +769,9 @@ func main() {
 	for runs < f.N {
 		var cs []Case
 		switch x := r.Intn(30); {
+		case id < 4 && runs < 16: // whatever the seed: several databases on one cluster through initDB / RotateAll
+			cs = []Case{genInitSeqL(r, id, true)}
+			id++
 		case x >= 26:
 			cs = []Case{genConc(r, id)}
 			id++
